@@ -109,7 +109,7 @@ def correspondence(ctx):
         if r is None:
             continue
         got = H.parse_pairs(r)
-        same = got == exp
+        same = H.same_numbers(got, exp)
         ctx.oblige(same, "correspondence", "model genQ/Aggr = real Aggregates on Fractions",
                    f"model={[H.frac(x) for x in got]} impl={[H.frac(x) for x in exp]}", case)
         ctx.sample({"a": case["a"], "queries": case["queries"], "outputs_equal": same,
